@@ -14,7 +14,15 @@ TOL = 1e-6
 def params(tier):
     if tier == "quick":
         return dict(nm=3, nr=3, K=(-1, 0, 1), d=1)
-    return dict(nm=3, nr=4, K=(-1, 0, 1, 2), d=2)
+    return dict(nm=3, nr=4, K=(-1, 0, 1), d=1)
+
+
+def thorough_passes():
+    """(params, net filter) passes of the thorough tier: deeper bound deviations on small nets, larger nets with one
+    deviation, and coefficient 2 on small nets (the full product F(3, <=4, {-1,0,1,2}, d<=2) has ~10^9 members)."""
+    return [(dict(nm=3, nr=3, K=(-1, 0, 1), d=2), None),
+            (dict(nm=3, nr=4, K=(-1, 0, 1), d=1), lambda n: len(n) == 4),
+            (dict(nm=3, nr=3, K=(-1, 0, 1, 2), d=1), lambda n: any(abs(x) == 2 for c in n for x in c))]
 
 
 def check_model(net, bounds, interface, stats, rich=False):
@@ -178,12 +186,17 @@ def replay(case):
 def explore(ctx):
     P = params(ctx.tier)
     n_self = exactlp.selftest(limit=4000)
-    nets = families.networks(P["nm"], P["nr"], P["K"])
-    off = ctx.seed % len(nets)
-    nets = nets[off:] + nets[:off]
-    chunk = 4 if ctx.tier == "quick" else 1
-    payloads = [{"params": P, "nets": nets[i:i + chunk], "interfaces": ["glpk", "glpk_exact"], "rich": ctx.thorough}
-                for i in range(0, len(nets), chunk)]
+    passes = [(P, None)] if ctx.tier == "quick" else thorough_passes()
+    payloads = []
+    nets = []
+    for PP, flt in passes:
+        ns = [n for n in families.networks(PP["nm"], PP["nr"], PP["K"]) if flt is None or flt(n)]
+        off = ctx.seed % len(ns)
+        ns = ns[off:] + ns[:off]
+        nets += ns
+        chunk = 4 if ctx.tier == "quick" else 1
+        payloads += [{"params": PP, "nets": ns[i:i + chunk], "interfaces": ["glpk", "glpk_exact"], "rich": ctx.thorough}
+                     for i in range(0, len(ns), chunk)]
     stats = {}
     with ctx.pool(timeout=1800) as pool:
         for i, status, res in pool.imap(payloads):
@@ -205,7 +218,7 @@ def explore(ctx):
                 "optimum exists and is non-zero" % P,
         "exhaustive": True, "networks": len(nets), "networks_raw": families.raw_network_count(P["nm"], P["nr"], P["K"]),
         "models": stats.get("models", 0), "exact_status_counts": {k: v for k, v in stats.items() if k.startswith("exact:")},
-        "exactlp_selftest_lps": n_self, "bound_completed": {"deviations": P["d"], "reactions": P["nr"]},
+        "exactlp_selftest_lps": n_self, "bound_completed": [dict(p, K=list(p["K"])) for p, _ in passes],
     })
     ctx.sample({"net": [list(c) for c in nets[0]], "bounds": "default + <=%d deviations" % P["d"]})
     ctx.sample({"net": [list(c) for c in nets[len(nets) // 2]]})
